@@ -191,7 +191,7 @@ class World:
         return self.mk('Functor', left=l, slash=s, right=r, **extra)
 
     def _default_extra(self, sn):
-        return {'String': z3.StringVal(''), 'Int': z3.IntVal(0), 'Bool': z3.BoolVal(False)}.get(sn)
+        return {'String': z3.StringVal(''), 'Int': z3.IntVal(0), 'Bool': z3.BoolVal(False), 'OptStr': self.OptStr.NoneS}.get(sn)
 
     # ---- spec functions -------------------------------------------------
     def _map_cat(self, name, leaf_fn, extra_sorts=(), extra_args=()):
